@@ -84,11 +84,43 @@ def check(ctx):
                   "rhs = ['0.0'] * n_eqns with n_eqns = max(n_spec + has_thermal, 1)",
                   expected="['0.0'] * max(len(species) + has_thermal, 1)", found=show(v))
 
+    reaction_sites(ctx, m)
+
+    # ---- R4 slot binding ----------------------------------------------------
+    _r4(ctx, m)
+
+    # ---- R5 who writes rhs ----------------------------------------------------
+    n_other = 0
+    for s in rhs_sites:
+        if s.kind == "other":
+            n_other += 1
+            report_problems(ctx, "R5", s)
+            if not s.problems:
+                ctx.bad("R5", f"{site_key(s)}:writer", where(s), "unclassified store into rhs")
+    ctx.check(True, "R5", "rhs:writers", (FILE, m.func.lineno),
+              f"{len(rhs_sites)} stores into rhs classified: " + ", ".join(sorted(s.kind for s in rhs_sites))) if not n_other else None
+    # stores into rhs from other functions of the module
+    ctx.floor("R5", "rhs stores", len(rhs_sites), 7, (FILE, m.func.lineno))
+
+    # ---- R7 thermal equation ----------------------------------------------------
+    _r7(ctx, m, rhs_sites)
+
+    # ---- R6 pseudo-reactants ----------------------------------------------------
+    _r6(ctx)
+
+    # ---- R8 emission in templates -------------------------------------------------
+    _r8(ctx)
+
+
+def reaction_sites(ctx, m, r_loss="R2", r_gain="R3"):
+    """R2/R3 (also the first clause of C04): one unconditional loss store and one gain store per
+    reaction, same monomial."""
+    rhs_sites = [s for s in m.sites if s.array == "rhs"]
     # ---- R2/R3 reaction sites -------------------------------------------------
     loss = [s for s in rhs_sites if s.kind == "loss"]
     gain = [s for s in rhs_sites if s.kind == "gain"]
     for name, lst, sign in (("loss", loss, -1), ("gain", gain, +1)):
-        rule = "R2" if name == "loss" else "R3"
+        rule = r_loss if name == "loss" else r_gain
         if len(lst) != 1:
             (ctx.bad if lst else ctx.missing)(rule, f"rhs:{name}:count", (FILE, m.func.lineno),
                                                f"expected exactly one {name} store into rhs per reaction, found {len(lst)}"
@@ -115,34 +147,10 @@ def check(ctx):
         same = (a.coeff == b.coeff and a.seq["base"] == b.seq["base"] and
                 norm_bv((a.seq["bv"], a.seq["body"], a.seq["base"], a.seq["ifs"])) ==
                 norm_bv((b.seq["bv"], b.seq["body"], b.seq["base"], b.seq["ifs"])))
-        ctx.check(same, "R3", "rhs:gain==loss monomial", where(b),
+        ctx.check(same, r_gain, "rhs:gain==loss monomial", where(b),
                   "gain and loss sites use the same rate*abundance monomial (same reconstruction)",
                   expected=a.text, found=b.text)
 
-    # ---- R4 slot binding ----------------------------------------------------
-    _r4(ctx, m)
-
-    # ---- R5 who writes rhs ----------------------------------------------------
-    n_other = 0
-    for s in rhs_sites:
-        if s.kind == "other":
-            n_other += 1
-            report_problems(ctx, "R5", s)
-            if not s.problems:
-                ctx.bad("R5", f"{site_key(s)}:writer", where(s), "unclassified store into rhs")
-    ctx.check(True, "R5", "rhs:writers", (FILE, m.func.lineno),
-              f"{len(rhs_sites)} stores into rhs classified: " + ", ".join(sorted(s.kind for s in rhs_sites))) if not n_other else None
-    # stores into rhs from other functions of the module
-    ctx.floor("R5", "rhs stores", len(rhs_sites), 7, (FILE, m.func.lineno))
-
-    # ---- R7 thermal equation ----------------------------------------------------
-    _r7(ctx, m, rhs_sites)
-
-    # ---- R6 pseudo-reactants ----------------------------------------------------
-    _r6(ctx)
-
-    # ---- R8 emission in templates -------------------------------------------------
-    _r8(ctx)
 
 
 def _r4(ctx, m):
